@@ -89,9 +89,10 @@ theorem C06_sorted (v : Bool) (m : Nat) (segs : List Seg) (drops : List (Option 
     and `es` the concatenation of their surviving entries, renumbered (location
     field ids translated by name unless `fieldsSame`):
     * the term is absent from the result iff `es` is empty (all its documents deleted);
-    * otherwise the stored representation denotes exactly `es`, provided a
-      location-free frequency-1 entry has norm bits `< 2^31` (the 1-hit form
-      keeps 31 norm bits);
+    * otherwise the stored representation denotes exactly `es` - for EVERY norm (the hypothesis
+      "norm bits below 2^31" this statement used to carry hid defect D14: a lone frequency-1 hit
+      whose norm bits were zero, or needed the 32nd bit, was written in the 1-hit form, which a
+      reader takes for an empty list; see `C06_D14_counterexample`);
     * `es` is ascending by document number if every input's list is. -/
 theorem C06_term (v : Bool) (m : Nat) (segs : List Seg) (drops : List (Option (List Nat)))
     (hne : newDocCount segs drops ≠ 0) (nm : Name) (hnm : nm ∈ mergedFieldNames segs)
@@ -100,8 +101,7 @@ theorem C06_term (v : Bool) (m : Nat) (segs : List Seg) (drops : List (Option (L
     let es := parts.flatMap (fun p => (survivors p.2.1 p.2.2.entries).map
                 (mergeEntry (fieldsSameAsCoded segs) (mergedFieldNames segs) p.1))
     (lookup k ((mergeSegs v m segs drops).1.dictTerms nm) = none ↔ es = []) ∧
-    (∀ r, lookup k ((mergeSegs v m segs drops).1.dictTerms nm) = some r →
-        (∀ e ∈ es, e.freq = 1 → e.locs = [] → e.norm < 2 ^ 31) → r.entries = es) ∧
+    (∀ r, lookup k ((mergeSegs v m segs drops).1.dictTerms nm) = some r → r.entries = es) ∧
     ((∀ s ∈ segs, ∀ r, lookup k (s.dictTerms nm) = some r → AscNat (r.entries.map (·.doc))) →
         AscNat (es.map (·.doc))) := by
   intro parts es
@@ -119,10 +119,10 @@ theorem C06_term (v : Bool) (m : Nat) (segs : List Seg) (drops : List (Option (L
       rw [this]; rfl
   refine ⟨?_, ?_, ?_⟩
   · rw [hlook, chooseRep_none_iff, hflat]
-  · intro r hr hn
+  · intro r hr
     rw [hlook] at hr
-    rw [← hflat] at hn ⊢
-    exact chooseRep_entries hr hn
+    rw [← hflat]
+    exact chooseRep_entries hr
   · intro hasc
     rw [← hflat]
     apply asc_merged _ _ _ (partsOf_mono nm k segs drops) _ (partsOf_pairwise nm k segs drops)
@@ -135,9 +135,15 @@ theorem C06_term (v : Bool) (m : Nat) (segs : List Seg) (drops : List (Option (L
     document number. -/
 theorem C06_same_unchanged (dst src : List Name) (e : Entry) : mergeEntry true dst src e = e := rfl
 
-/-- The norm hypothesis of `C06_term` is necessary: with norm bits `2^31 + 5`
-    the 1-hit form drops the top bit. -/
-example : (chooseRep [[⟨4, 1, 2147483653, []⟩]]).map PostRep.entries = some [⟨4, 1, 5, []⟩] := by decide
+/-- Defect D14, evaluated on the choice as it was (`chooseRepD14`): with norm bits `2^31 + 5` the
+    1-hit form dropped the top bit, with norm bits `0` (an analysed length of 0, or of 2^32) it wrote
+    a value that readers take for an empty list - the hit was lost.  The current choice keeps both. -/
+theorem C06_D14_counterexample :
+    (chooseRepD14 [[⟨4, 1, 2147483653, []⟩]]).map PostRep.entries = some [⟨4, 1, 5, []⟩] ∧
+    chooseRepD14 [[⟨4, 1, 0, []⟩]] = some (.oneHit 4 0) ∧
+    (chooseRep [[⟨4, 1, 2147483653, []⟩]]).map PostRep.entries = some [⟨4, 1, 2147483653, []⟩] ∧
+    (chooseRep [[⟨4, 1, 0, []⟩]]).map PostRep.entries = some [⟨4, 1, 0, []⟩] := by
+  refine ⟨by decide, by decide, by decide, by decide⟩
 
 /-- A single survivor that does not come from the last input carrying the term
     is written in the general form (`lastFreq` is 0 then). -/
@@ -189,3 +195,4 @@ end Zap
 #print axioms Zap.C06_sorted
 #print axioms Zap.C06_term
 #print axioms Zap.C06_same_unchanged
+#print axioms Zap.C06_D14_counterexample
